@@ -225,6 +225,19 @@ def stage(prop, spec, scratch=None):
         nre += n1
         with open(p, "w") as f:
             f.write(t)
+    # cargo decides freshness by mtime: a source file whose CONTENT differs from the last build but whose mtime is older
+    # (rsync -a keeps /repo's mtimes; VERIF_REPO may point at another tree) would be taken as unchanged.  The crate is
+    # rebuilt on every run anyway (lib.rs is rewritten), so stamping every staged source file costs nothing.
+    now = time.time()
+    for root, _dirs, files in os.walk(scratch):
+        if os.sep + "target" in root:
+            continue
+        for fn in files:
+            if fn.endswith((".rs", ".toml", ".lock")):
+                try:
+                    os.utime(os.path.join(root, fn), (now, now))
+                except OSError:
+                    pass
     return scratch, nre
 
 
